@@ -53,6 +53,8 @@ RULE_POOL = [
     ('call', [('a', 'Q', 1), ('%a', '\\x', 2)], ''),
     ('call', [('e', '\\textepsilon', 1), ('a', '\\priv', 1)], 'braces-after-macro'),
     # left-context assertions: look-behind, start of string, word boundary (real \\b), negative look-behind
+    # a callable that takes the encoder (u2lobj) and encodes an inner text with it while the outer run is in progress
+    ('nest', [('a%', '%\u00e9', 2), ('\u03b1', 'e%', 1)], ''),
     ('regex', [('a', 'A', ('in', [37])), ('e', 'E', ('bos', [])), ('a', 'W', ('wordstart', None)), ('%', 'N', ('notin', [97, 10]))], ''),
 ]
 
@@ -90,7 +92,10 @@ def rule_tla(r):
 
 def make_cfgs(quick):
     """list of dict(rules=[pool indices], scheme, policy, nao)"""
-    lists = [[i] for i in range(len(RULE_POOL))] + [list(p) for p in itertools.permutations(range(len(RULE_POOL)), 2)]
+    pairs = [list(p) for p in itertools.permutations(range(len(RULE_POOL)), 2)]
+    if quick:
+        pairs = pairs[::2] + [p for p in pairs[1::2] if 6 in p][:6]      # every second ordered pair; the nested-run rule more often
+    lists = [[i] for i in range(len(RULE_POOL))] + pairs
     if not quick:
         lists += [list(p) for p in itertools.permutations(range(len(RULE_POOL)), 3)][::3]
     lists.append([])
@@ -141,6 +146,19 @@ def mc_text(cfgs, pool=RULE_POOL, alphabet=ALPHABET, nfc=NFC_TAB):
 # ---------------------------------------------------------------------------
 # instantiate a configuration with real objects
 
+class NestingCallable(object):
+    """rule callable with the documented `u2lobj` argument: encodes an inner text with the same encoder object"""
+
+    def __init__(self, ent):
+        self.ent = ent
+
+    def __call__(self, s, pos, u2lobj):
+        for lit, inner, consume in self.ent:
+            if s.startswith(lit, pos):
+                return (consume, '[' + u2lobj.unicode_to_latex(inner) + ']')
+        return None
+
+
 class LoggingCallable(object):
     def __init__(self, ent):
         self.ent = ent
@@ -159,6 +177,7 @@ def build_encoder(c, pool=RULE_POOL, cls=None):
                                         RULE_CALLABLE)
     rules = []
     callables = {}
+    nested = False
     for j, i in enumerate(c['rules']):
         t, ent, prot = pool[i]
         kw = dict(replacement_latex_protection=prot) if prot else {}
@@ -168,6 +187,9 @@ def build_encoder(c, pool=RULE_POOL, cls=None):
             rules.append(UnicodeToLatexConversionRule(RULE_REGEX, [
                 (re.compile((_left_regex(x[2]) if len(x) > 2 else '') + re.escape(x[0])), x[1].replace('\\', '\\\\'))
                 for x in ent], **kw))
+        elif t == 'nest':
+            rules.append(UnicodeToLatexConversionRule(RULE_CALLABLE, NestingCallable(ent), **kw))
+            nested = True
         else:
             lc = LoggingCallable(ent)
             callables[j + 1] = lc
@@ -177,6 +199,8 @@ def build_encoder(c, pool=RULE_POOL, cls=None):
         kw['latex_string_class'] = cls
     enc = UnicodeToLatexEncoder(conversion_rules=rules, replacement_latex_protection=c['scheme'],
                                 unknown_char_policy=c['policy'], non_ascii_only=c['nao'], unknown_char_warning=False, **kw)
+    if nested:
+        callables = {}       # a nested run consults the other callables too: the consultation log is not compared
     return enc, callables
 
 
@@ -193,7 +217,14 @@ class EncConsumer(Consumer):
         if len(rec['log']) >= 2 and c['rules']:
             self.nontrivial += 1
         self.sample(dict(case, model=dict(ok=rec['ok'], out=uncodes(rec['out']))), every=9973)
-        enc, callables = build_encoder(c, cls=(StrSub if self.n % 7 == 0 else None))
+        # one encoder object per configuration (and result class), reused for all strings: that is how encoders are used
+        key = (rec['ci'], self.n % 7 == 0)
+        cache = self.__dict__.setdefault('_encoders', {})
+        if key not in cache:
+            cache[key] = build_encoder(c, cls=(StrSub if key[1] else None))
+        enc, callables = cache[key]
+        for lc in callables.values():
+            lc.calls = []
         st, val = guarded(enc.unicode_to_latex, s)
         if st == 'timeout':
             self.violation('outcome', case, detail=dict(status='timeout'), sig=dict(clause='outcome', status='timeout'))
